@@ -223,6 +223,10 @@ Fixpoint an_bisect_apart (fuel : nat) (x y : anum) : option (anum * anum) :=
     if (d1 =? d2) && negb (d1 =? 0) && negb (d2 =? 0) then an_bisect_apart f x' y' else Some (x', y')
   end.
 
+(* the gcd as the checks instantiate it: primitive part of the reference gcd (C03 proves UPoly.pgcd correct and ties
+   lp_upolynomial_gcd to it) *)
+Definition an_ref_gcd (p q : poly) : poly := ppp (pgcd p q).
+
 Definition an_cmp (fuel : nat) (gcdf : poly -> poly -> poly) (x y : anum) : option (Z * anum * anum) :=
   (* refine both with the end points of the intersection of the ORIGINAL intervals *)
   let '(x1, y1) :=
